@@ -281,6 +281,11 @@ RTSafe(ev) ==
 C09_NoHeap(I, ev) == (RTSafe(ev) /\ ev.res \in {"ok", "err"}) => ev.heap = 0
 
 (***************************************************************************)
+(* C11  masked-out channels are left untouched                             *)
+(***************************************************************************)
+C11_MaskUntouched(I, ev) == (IsProc(ev) \/ ev.ev = "bad") => ~ev.dirty_masked
+
+(***************************************************************************)
 (* C12  setter domains                                                     *)
 (***************************************************************************)
 C12_RatioDomain(I, ev) ==
